@@ -295,6 +295,18 @@ func runScript(s script) (string, outcome) {
 	if got := pw.Size(); got != total {
 		return fmt.Sprintf("after Close() Size() = %d, want %d", got, total), oc
 	}
+	// whoever asks for the channel after Close() has returned (a select loop that calls Status() every round, an
+	// observer that starts late) gets a closed channel: a receive comes back at once, with ok == false
+	for round := 0; round < 2; round++ {
+		select {
+		case v, ok := <-pw.Status():
+			if ok {
+				return fmt.Sprintf("Status() fetched after Close() had returned delivered another value (%d)", v), oc
+			}
+		default:
+			return "Status() fetched after Close() had returned is not a closed channel: a receive on it would block", oc
+		}
+	}
 	return "", oc
 }
 
